@@ -223,4 +223,11 @@ def parseConfig (data : Str) : Res (List Route × List Table) :=
     (iptLines { tables := [], cur := false, curName := [], app := false } tLines).bind fun st =>
       .ok (routes, st.tables)
 
+/-- `MergeSpoc` (linux/config.go): `i := len(rules); for i > 0 && rules[i-1].pairs["-j"] == "DROP" { i-- }`.
+`revDrop` = for every rule of the chain, last rule first, whether its target is DROP.
+`bounded = false` is the loop without the `i > 0` bound. -/
+def appendIndex (bounded : Bool) : List Bool → Res Nat
+  | [] => if bounded then .ok 0 else .panic (.index "aChain.rules[i-1]")
+  | d :: rest => if d then appendIndex bounded rest else .ok (rest.length + 1)
+
 end NA.C20.Linux
